@@ -1,3 +1,376 @@
-import Cutadapt.Stats
+import Cutadapt.Proofs.StepsDemux
+import Cutadapt.Proofs.StepsShape
+/-! # C15 — demultiplexing puts every read into the file of its adapter
+
+Model: `Cutadapt.Pipeline` (`stepS`/`stepP` on `Step.demux`, `Step.combDemux`; `lookupLast`), `Cutadapt.Assembly.makeSteps`.
+Helper lemmas: `Cutadapt/Proofs/StepsMake.lean` (closed form of `makeSteps`), `StepsDemux.lean`, `StepsPrefix.lean`. -/
 namespace Cutadapt.C15
+open Cutadapt Cutadapt.Steps
+
+/-- name of the adapter a match belongs to (`match.adapter.name`); `""` only for an index outside the adapter list -/
+def adapterName (ads : List Matchable) (m : AnyMatch) : String := (namesOf ads).getD m.adapter ""
+
+theorem adapterName_eq (ads : List Matchable) (m : AnyMatch) (a : Matchable) (h : ads[m.adapter]? = some a) :
+    adapterName ads m = a.name := by
+  simp [adapterName, namesOf, List.getD, h]
+
+/-! ## Routing -/
+
+/-- `dict` lookup as `lookupLast` models it: the last binding of a key wins -/
+theorem lookupLast_spec [BEq κ] [LawfulBEq κ] (k : κ) (l1 l2 : List (κ × ν)) (v : ν)
+    (h : ∀ p ∈ l2, p.1 ≠ k) : lookupLast k (l1 ++ (k, v) :: l2) = some v := by
+  unfold lookupLast
+  rw [List.reverse_append, List.reverse_cons, List.append_assoc, List.find?_append]
+  have : l2.reverse.find? (fun p => p.1 == k) = none := by
+    rw [List.find?_eq_none]
+    intro p hp
+    simpa using h p (by simpa using hp)
+  simp [this]
+
+/-- **Single-end.** With a last match `m`: the read goes to the writer bound to the name of `m`'s adapter and is counted
+    as written (`KeyError` if there is no such file). Without a match: to the untrimmed/"unknown" writer, counted as
+    written — or, with `--discard-untrimmed`, nowhere, counted as filtered. -/
+theorem demux_routing (ads : List Matchable) (k : Nat) (ws : List (String × Nat)) (un : Option Nat) (r : Read) (i : Info) :
+    (∀ m, i.mts.getLast? = some m →
+      stepS ads k (.demux ws un) r i =
+        match lookupLast (adapterName ads m) ws with
+        | some w => .ok (none, [.sinkStat k r.len none, .write w r none])
+        | none => .error .key) ∧
+    (i.mts = [] →
+      stepS ads k (.demux ws un) r i =
+        match un with
+        | some w => .ok (none, [.sinkStat k r.len none, .write w r none])
+        | none => .ok (none, [.filtered k])) := by
+  refine ⟨fun m hm => ?_, fun h => ?_⟩
+  · simp only [stepS, hm, adapterName]
+    rfl
+  · simp only [stepS, h, List.getLast?_nil]
+    rfl
+
+/-- **Paired-end, `{name}`.** The same, decided by the matches on R1 only; both mates go to the chosen writer. -/
+theorem demux_routing_paired (a1 a2 : List Matchable) (k : Nat) (ws : List (String × Nat)) (un : Option Nat)
+    (r1 r2 : Read) (i1 i2 : Info) :
+    (∀ m, i1.mts.getLast? = some m →
+      stepP a1 a2 k (.demux ws un) (r1, r2) (i1, i2) =
+        match lookupLast (adapterName a1 m) ws with
+        | some w => .ok (none, [.sinkStat k r1.len (some r2.len), .write w r1 (some r2)])
+        | none => .error .key) ∧
+    (i1.mts = [] →
+      stepP a1 a2 k (.demux ws un) (r1, r2) (i1, i2) =
+        match un with
+        | some w => .ok (none, [.sinkStat k r1.len (some r2.len), .write w r1 (some r2)])
+        | none => .ok (none, [.filtered k])) ∧
+    (∀ i2', stepP a1 a2 k (.demux ws un) (r1, r2) (i1, i2') = stepP a1 a2 k (.demux ws un) (r1, r2) (i1, i2)) := by
+  refine ⟨fun m hm => ?_, fun h => ?_, fun i2' => rfl⟩
+  · simp only [stepP, hm, adapterName]
+    rfl
+  · simp only [stepP, h, List.getLast?_nil]
+    rfl
+
+/-- **Combinatorial, `{name1}`/`{name2}`.** The key is the pair (name of the last R1 match or `none`, name of the last R2
+    match or `none`); the pair is written iff the key is bound to a file, else counted as filtered. -/
+theorem comb_routing (a1 a2 : List Matchable) (k : Nat) (ws : List ((Option String × Option String) × Nat))
+    (r1 r2 : Read) (i1 i2 : Info) :
+    stepP a1 a2 k (.combDemux ws) (r1, r2) (i1, i2) =
+      match lookupLast (i1.mts.getLast?.map (adapterName a1), i2.mts.getLast?.map (adapterName a2)) ws with
+      | some w => .ok (none, [.sinkStat k r1.len (some r2.len), .write w r1 (some r2)])
+      | none => .ok (none, [.filtered k]) := by
+  simp only [stepP]
+  rfl
+
+/-- R1 ends in a match of adapter 1 ("b"): the read goes to writer 11, not to "a"'s writer 10 nor to "unknown" 12 -/
+example (r : Read) (m : MatchRec) (x : Adapters.Adapter) :
+    stepS [.linked x x true true "a", .linked x x true true "b"] 3 (.demux [("a", 10), ("b", 11)] (some 12)) r
+      { mts := [.single 0 m, .single 1 m], original := r } = .ok (none, [.sinkStat 3 r.len none, .write 11 r none]) := by
+  rfl
+example (r : Read) : stepS [] 3 (.demux [("a", 10)] (some 12)) r { original := r } =
+    .ok (none, [.sinkStat 3 r.len none, .write 12 r none]) := rfl
+example (r : Read) : stepS [] 3 (.demux [("a", 10)] none) r { original := r } = .ok (none, [.filtered 3]) := rfl
+
+/-! ## A file for every adapter name -/
+
+/-- the writer opened for adapter name `n`: `{name}` replaced in `-o` (and `-p`) -/
+theorem demuxWriter_paths (o : Opts) (n : String) :
+    (demuxWriter o n).path1 = o.output.replace "{name}" n ∧
+    (demuxWriter o n).path2 = (if o.paired = true then o.pairedOutput.map (·.replace "{name}" n) else none) ∧
+    (unknownWriter o).path1 = o.untrimmedOut.getD (o.output.replace "{name}" "unknown") ∧
+    (unknownWriter o).path2 = (if o.paired = true then
+        some (o.untrimmedPaired.getD ((o.pairedOutput.getD "").replace "{name}" "unknown")) else none) := by
+  cases h : o.paired <;> simp [demuxWriter, unknownWriter, h]
+
+/-- **`{name}`.** When `makeSteps` succeeds in demultiplexing mode, the step list ends in the demultiplexer, and — after the
+    writers `n0` of the filters' redirect files — the opened writers are, in order, one per adapter name (bound to that name
+    in the demultiplexer), then, unless `--discard-untrimmed`, the one for reads without match. This is fixed by the
+    options and the adapter names alone: `makeSteps` does not see any read, the files exist even if they stay empty. -/
+theorem demux_writers_opened {o : Opts} {names names2 : List String} {steps : List Step} {f : Files}
+    (h : makeSteps o names names2 = .ok (steps, f)) (hdm : demuxMode o = .ok 1) :
+    ∃ pre n0, n0 = (front o).1.writers.length ∧
+      steps = pre ++ [.demux (names.zipIdx n0) (if o.discardUntrimmed = true then none else some (n0 + names.length))] ∧
+      f.writers = (front o).1.writers ++ names.map (demuxWriter o) ++
+        (if o.discardUntrimmed = true then [] else [unknownWriter o]) ∧
+      (∀ j n, names[j]? = some n → f.writers[n0 + j]? = some (demuxWriter o n)) ∧
+      (o.discardUntrimmed = false → f.writers[n0 + names.length]? = some (unknownWriter o)) := by
+  obtain ⟨dm, hdm', -, -, heq⟩ := makeSteps_ok h
+  rw [hdm] at hdm'
+  simp only [Except.ok.injEq] at hdm'
+  subst hdm'
+  simp only [finalD, if_true, openMany] at heq
+  refine ⟨(front o).2 ++ simpleSteps o, _, rfl, ?_⟩
+  cases hd : o.discardUntrimmed
+  · simp only [hd, Bool.false_eq_true, if_false, Prod.mk.injEq, Files.openWriter] at heq
+    obtain ⟨rfl, rfl⟩ := heq
+    refine ⟨by simp, by simp, fun j n hj => ?_, fun _ => ?_⟩
+    · have hlt : j < names.length := by
+        rcases Nat.lt_or_ge j names.length with h | h
+        · exact h
+        · rw [List.getElem?_eq_none h] at hj; simp at hj
+      simp only [List.append_assoc]
+      rw [List.getElem?_append_right (Nat.le_add_right _ _), Nat.add_sub_cancel_left,
+        List.getElem?_append_left (by simpa using hlt), List.getElem?_map, hj]
+      rfl
+    · simp only [List.append_assoc]
+      rw [List.getElem?_append_right (Nat.le_add_right _ _), Nat.add_sub_cancel_left,
+        List.getElem?_append_right (by simp)]
+      simp
+  · simp only [hd, if_true, Prod.mk.injEq] at heq
+    obtain ⟨rfl, rfl⟩ := heq
+    refine ⟨by simp, by simp, fun j n hj => ?_, fun hc => by simp at hc⟩
+    have hlt : j < names.length := by
+      rcases Nat.lt_or_ge j names.length with h | h
+      · exact h
+      · rw [List.getElem?_eq_none h] at hj; simp at hj
+    rw [List.getElem?_append_right (Nat.le_add_right _ _), Nat.add_sub_cancel_left, List.getElem?_map, hj]
+    rfl
+
+/-- **`{name1}`/`{name2}`.** One writer per pair of names in `names × names2`, then — unless `--discard-untrimmed` — the
+    combinations with "unknown": (none, none), (none, n2) for every R2 name, (n1, none) for every R1 name. -/
+theorem comb_writers_opened {o : Opts} {names names2 : List String} {steps : List Step} {f : Files}
+    (h : makeSteps o names names2 = .ok (steps, f)) (hdm : demuxMode o = .ok 2) :
+    ∃ pre n0, n0 = (front o).1.writers.length ∧
+      steps = pre ++ [.combDemux ((combKeys o names names2).zipIdx n0)] ∧
+      f.writers = (front o).1.writers ++ (combKeys o names names2).map (combWriter o) ∧
+      combKeys o names names2 =
+        (names.flatMap fun a => names2.map fun b => (some a, some b)) ++
+        (if o.discardUntrimmed = true then [] else
+          [(none, none)] ++ names2.map (fun n => (none, some n)) ++ names.map (fun n => (some n, none))) ∧
+      ∀ k : Option String × Option String,
+        (combWriter o k).path1 = (o.output.replace "{name1}" (k.1.getD "unknown")).replace "{name2}" (k.2.getD "unknown") ∧
+        (combWriter o k).path2 =
+          some (((o.pairedOutput.getD "").replace "{name1}" (k.1.getD "unknown")).replace "{name2}" (k.2.getD "unknown")) := by
+  obtain ⟨dm, hdm', -, -, heq⟩ := makeSteps_ok h
+  rw [hdm] at hdm'
+  simp only [Except.ok.injEq] at hdm'
+  subst hdm'
+  simp only [finalD, show ((2 : Nat) = 1) = False by decide, if_false, if_true, openMany, Prod.mk.injEq] at heq
+  obtain ⟨rfl, rfl⟩ := heq
+  exact ⟨(front o).2 ++ simpleSteps o, _, rfl, rfl, rfl, rfl, fun k => ⟨rfl, rfl⟩⟩
+
+/-! ## The demultiplexed files partition the plain output -/
+
+/-- the writers of a demultiplexer with an "unknown"/untrimmed file -/
+def demuxWriters (ws : List (String × Nat)) (u : Nat) : List Nat := ws.map (·.2) ++ [u]
+
+/-- **Per read.** Same steps `pre`, closed by a demultiplexer (no `--discard-untrimmed`) in one pipeline and by a plain
+    sink in the other. If the demultiplexing run of a read succeeds, then so does the plain run, and either both logs are
+    identical (a filter of `pre` consumed the read: neither final step sees it), or the demultiplexer writes the read `r'`
+    to one of its writers and the sink writes the identical record `r'` to `w0`, both counting it as written. -/
+theorem demux_is_partition_per_read {ads : List Matchable} {pre : List Step} {ws : List (String × Nat)} {u w0 idx : Nat}
+    {r : Read} {i : Info} {evs0 evsD : List Event}
+    (hD : runStepsS ads (pre ++ [.demux ws (some u)]) idx r i evs0 = .ok evsD) :
+    ∃ e, (∀ w a b, Event.write w a b ∈ e → ∃ s ∈ pre, w ∈ s.writers) ∧
+      ((evsD = evs0 ++ e ∧ runStepsS ads (pre ++ [.sink w0]) idx r i evs0 = .ok (evs0 ++ e)) ∨
+       (∃ r' w, w ∈ demuxWriters ws u ∧
+          evsD = evs0 ++ e ++ [.sinkStat (idx + pre.length) r'.len none, .write w r' none] ∧
+          runStepsS ads (pre ++ [.sink w0]) idx r i evs0 =
+            .ok (evs0 ++ e ++ [.write w0 r' none, .sinkStat (idx + pre.length) r'.len none]))) := by
+  rw [runStepsS_append] at hD
+  rw [runStepsS_append]
+  cases hp : runPrefixS ads pre idx r i with
+  | error e => simp [hp] at hD
+  | ok v =>
+    obtain ⟨o, e⟩ := v
+    refine ⟨e, fun w a b hw => runPrefixS_writes hp hw, ?_⟩
+    cases o with
+    | none =>
+      simp only [hp, Except.ok.injEq] at hD
+      exact .inl ⟨hD.symm, rfl⟩
+    | some r' =>
+      right
+      simp only [hp, runStepsS] at hD ⊢
+      split at hD
+      · simp at hD
+      · rename_i e' hs
+        simp only [Except.ok.injEq] at hD
+        obtain ⟨-, hcase⟩ := stepS_final (s := .demux ws (some u)) rfl hs
+        rcases hcase with ⟨w, hw, he⟩ | ⟨he, -⟩
+        · have he' : e' = [.sinkStat (idx + pre.length) r'.len none, .write w r' none] := by
+            simp only [stepS] at hs
+            repeat' split at hs
+            all_goals first
+              | (simp at hs; done)
+              | (simp only [Except.ok.injEq, Prod.mk.injEq, true_and] at hs
+                 rcases he with rfl | rfl
+                 · simp at hs
+                 · rfl)
+          subst he'
+          exact ⟨r', w, by simpa [demuxWriters, Step.writers] using hw, hD.symm, by simp [stepS]⟩
+        · subst he
+          simp only [stepS] at hs
+          repeat' split at hs
+          all_goals simp at hs
+      · rename_i r'' e' hs
+        have := (stepS_final (s := .demux ws (some u)) rfl hs).1
+        simp at this
+
+/-- conversely the plain run cannot fail where the demultiplexing run does not, and with a file for every adapter name the
+    demultiplexing run does not fail where the plain run succeeds -/
+theorem plain_ok_demux_ok {ads : List Matchable} {pre : List Step} {ws : List (String × Nat)} {u w0 idx : Nat}
+    {r : Read} {i : Info} {evs0 evsS : List Event}
+    (hlook : ∀ m, i.mts.getLast? = some m → (lookupLast (adapterName ads m) ws).isSome = true)
+    (hS : runStepsS ads (pre ++ [.sink w0]) idx r i evs0 = .ok evsS) :
+    ∃ evsD, runStepsS ads (pre ++ [.demux ws (some u)]) idx r i evs0 = .ok evsD := by
+  rw [runStepsS_append] at hS ⊢
+  cases hp : runPrefixS ads pre idx r i with
+  | error e => simp [hp] at hS
+  | ok v =>
+    obtain ⟨o, e⟩ := v
+    cases o with
+    | none => exact ⟨_, rfl⟩
+    | some r' =>
+      simp only [runStepsS, stepS]
+      cases hm : i.mts.getLast? with
+      | none => exact ⟨_, rfl⟩
+      | some m =>
+        obtain ⟨w, hw⟩ := Option.isSome_iff_exists.1 (hlook m hm)
+        simp only [adapterName] at hw
+        simp only [hw]
+        exact ⟨_, rfl⟩
+
+/-- per read, at the level of `processReadS`: the plain pipeline succeeds, and the record it writes to `w0` is exactly what
+    the demultiplexing pipeline writes to its writers taken together -/
+theorem partition_of_read {ads : List Matchable} {mods : List SMod} {pre : List Step} {ws : List (String × Nat)}
+    {u w0 : Nat} (hW : (demuxWriters ws u).Nodup)
+    (hapartD : ∀ s ∈ pre, ∀ w ∈ s.writers, w ∉ demuxWriters ws u) (hapartS : ∀ s ∈ pre, w0 ∉ s.writers)
+    {r : Read} {eD : List Event} (hD : processReadS ⟨ads, mods, pre ++ [.demux ws (some u)]⟩ r = .ok eD) :
+    ∃ eS, processReadS ⟨ads, mods, pre ++ [.sink w0]⟩ r = .ok eS ∧
+      recordsTo [w0] eS = (demuxWriters ws u).flatMap (fun w => recordsTo [w] eD) := by
+  unfold processReadS at hD ⊢
+  simp only at hD ⊢
+  cases hm : runModsS (namesOf ads) mods r { original := r } [Event.input r.len none] with
+  | error e => simp [hm] at hD
+  | ok v =>
+    obtain ⟨r', i', evs0⟩ := v
+    simp only [hm] at hD ⊢
+    obtain ⟨cnt, rfl, hc⟩ := runModsS_counter hm
+    have h0 : ∀ W, recordsTo W ([Event.input r.len none] ++ cnt) = [] := fun W =>
+      recordsTo_eq_nil (fun w a b hw => by
+        simp only [List.cons_append, List.nil_append, List.mem_cons, reduceCtorEq, false_or] at hw
+        have := hc _ hw; simp [isCounter] at this)
+    obtain ⟨e, hwr, hcase⟩ := demux_is_partition_per_read (w0 := w0) hD
+    have heS : recordsTo [w0] e = [] := recordsTo_eq_nil (fun w a b hw hmem => by
+      obtain ⟨s, hs, hws⟩ := hwr w a b hw
+      simp only [List.mem_singleton] at hmem
+      exact hapartS s hs (hmem ▸ hws))
+    have heD : ∀ w' ∈ demuxWriters ws u, recordsTo [w'] e = [] := fun w' hw' =>
+      recordsTo_eq_nil (fun w a b hw hmem => by
+        obtain ⟨s, hs, hws⟩ := hwr w a b hw
+        simp only [List.mem_singleton] at hmem
+        exact hapartD s hs w hws (hmem ▸ hw'))
+    rcases hcase with ⟨rfl, hS⟩ | ⟨r'', w, hw, rfl, hS⟩
+    · refine ⟨_, hS, ?_⟩
+      rw [recordsTo_append, h0, heS]
+      rw [flatMap_congr_mem (g := fun _ => []) (fun w' hw' => by rw [recordsTo_append, h0, heD w' hw']; rfl)]
+      simp
+    · refine ⟨_, hS, ?_⟩
+      rw [recordsTo_append, recordsTo_append, h0, heS]
+      rw [flatMap_congr_mem (g := fun w' => if w' = w then [(r'', none)] else []) (fun w' hw' => by
+        rw [recordsTo_append, recordsTo_append, h0, heD w' hw']
+        by_cases hww : w' = w
+        · subst hww; simp [recordsTo]
+        · have : ¬ w = w' := fun e => hww e.symm
+          simp [recordsTo, hww, this])]
+      rw [flatMap_single hW hw]
+      simp [recordsTo]
+
+/-- **Whole run.** Same adapters, modifiers and filters; one pipeline closed by a demultiplexer with an "unknown" file
+    (no trimmed/untrimmed option), the other by the plain sink `w0`; writer indices distinct. If the demultiplexing run
+    is error-free, so is the plain run, and the records of the main output are a permutation of the records of all
+    demultiplexed files together: nothing lost, nothing duplicated, identical records. -/
+theorem demux_is_partition_of_plain_output {ads : List Matchable} {mods : List SMod} {pre : List Step}
+    {ws : List (String × Nat)} {u w0 : Nat} {reads : List Read} {evsD : List Event}
+    (hW : (demuxWriters ws u).Nodup)
+    (hapartD : ∀ s ∈ pre, ∀ w ∈ s.writers, w ∉ demuxWriters ws u) (hapartS : ∀ s ∈ pre, w0 ∉ s.writers)
+    (hD : runSingle ⟨ads, mods, pre ++ [.demux ws (some u)]⟩ reads = (evsD, none)) :
+    ∃ evsS, runSingle ⟨ads, mods, pre ++ [.sink w0]⟩ reads = (evsS, none) ∧
+      (recordsTo [w0] evsS).Perm ((demuxWriters ws u).flatMap (fun w => recordsTo [w] evsD)) := by
+  obtain ⟨hcat, hok⟩ := Steps.run_is_concat hD
+  have hper : ∀ r ∈ reads,
+      processReadS ⟨ads, mods, pre ++ [.sink w0]⟩ r = .ok (evsOf (processReadS ⟨ads, mods, pre ++ [.sink w0]⟩) r) ∧
+      recordsTo [w0] (evsOf (processReadS ⟨ads, mods, pre ++ [.sink w0]⟩) r) =
+        (demuxWriters ws u).flatMap
+          (fun w => recordsTo [w] (evsOf (processReadS ⟨ads, mods, pre ++ [.demux ws (some u)]⟩) r)) := by
+    intro r hr
+    obtain ⟨eS, h1, h2⟩ := partition_of_read hW hapartD hapartS (hok r hr)
+    have : evsOf (processReadS ⟨ads, mods, pre ++ [.sink w0]⟩) r = eS := by simp [evsOf, h1, Except.toOption]
+    rw [this]
+    exact ⟨h1, h2⟩
+  refine ⟨_, runReads_of_ok (fun r hr => (hper r hr).1), ?_⟩
+  rw [hcat, recordsTo_flatten, List.map_map]
+  have e2 : ∀ w, recordsTo [w] (reads.map (evsOf (processReadS ⟨ads, mods, pre ++ [.demux ws (some u)]⟩))).flatten =
+      (reads.map (fun r => recordsTo [w] (evsOf (processReadS ⟨ads, mods, pre ++ [.demux ws (some u)]⟩) r))).flatten := by
+    intro w; rw [recordsTo_flatten, List.map_map]; rfl
+  simp only [e2]
+  exact perm_lift (demuxWriters ws u) reads _ _ (fun r hr => (hper r hr).2)
+
+/-- **From the command line.** Options `o` with `{name}` in `-o` (no trimmed/untrimmed option) and the same options with a
+    plain output path `out`: `makeSteps` builds the same writers and filters `pre`, closed by the demultiplexer resp. the
+    sink, with pairwise distinct writer indices apart from the redirect files — so for every read set and modifier list the
+    error-free demultiplexing run partitions exactly the records of the plain run's main output. -/
+theorem cli_demux_partition {o : Opts} {out : String} {names : List String} {stepsD stepsS : List Step} {fD fS : Files}
+    (hdm : demuxMode o = .ok 1) (hdm' : demuxMode { o with output := out } = .ok 0)
+    (hnu : o.discardUntrimmed = false) (hut : o.untrimmedOut = none) (hutp : o.untrimmedPaired = none)
+    (hD : makeSteps o names [] = .ok (stepsD, fD)) (hS : makeSteps { o with output := out } names [] = .ok (stepsS, fS))
+    {ads : List Matchable} {mods : List SMod} {reads : List Read} {evsD : List Event}
+    (hrun : runSingle ⟨ads, mods, stepsD⟩ reads = (evsD, none)) :
+    ∃ pre ws u w0 evsS, stepsD = pre ++ [.demux ws (some u)] ∧ stepsS = pre ++ [.sink w0] ∧
+      runSingle ⟨ads, mods, stepsS⟩ reads = (evsS, none) ∧
+      (recordsTo [w0] evsS).Perm ((demuxWriters ws u).flatMap (fun w => recordsTo [w] evsD)) := by
+  obtain ⟨dm, e1, -, hk, heq⟩ := makeSteps_ok hD
+  rw [hdm] at e1; simp only [Except.ok.injEq] at e1; subst e1
+  obtain ⟨dm', e2, -, hk', heq'⟩ := makeSteps_ok hS
+  rw [hdm'] at e2; simp only [Except.ok.injEq] at e2; subst e2
+  have hdt : o.discardTrimmed = false := by
+    simp only [finalOk] at hk
+    cases h : o.discardTrimmed <;> simp_all
+  have hfront : front { o with output := out } = front o := rfl
+  have hsimple : simpleSteps { o with output := out } = simpleSteps o := rfl
+  simp only [finalD, if_true, hnu, Bool.false_eq_true, if_false, openMany, Prod.mk.injEq] at heq
+  simp only [finalD, show ((0 : Nat) = 1) = False by decide, show ((0 : Nat) = 2) = False by decide, if_false,
+    untrimmedFilter, hdt, hnu, hut, hutp, Option.isSome_none, Bool.or_self, Bool.false_eq_true, List.append_nil,
+    Prod.mk.injEq] at heq'
+  obtain ⟨rfl, -⟩ := heq
+  obtain ⟨rfl, -⟩ := heq'
+  have hb : Built False ((front o).2 ++ simpleSteps o) 6 _ (front o).1.writers.length :=
+    simple_built o (fun h => h.elim)
+  have hWeq : demuxWriters (names.zipIdx (front o).1.writers.length) ((front o).1.writers.length + names.length) =
+      List.range' (front o).1.writers.length (names.length + 1) := by
+    simp [demuxWriters, List.zipIdx_map_snd, List.range'_1_concat]
+  have hmemW : ∀ w, w ∈ demuxWriters (names.zipIdx (front o).1.writers.length)
+      ((front o).1.writers.length + names.length) → (front o).1.writers.length ≤ w := by
+    intro w hw
+    rw [hWeq, List.mem_range'_1] at hw
+    exact hw.1
+  have hlen : (front o).1.writers.length + names.length =
+      ({ writers := (front o).1.writers ++ names.map (demuxWriter o), texts := (front o).1.texts } : Files).writers.length := by
+    simp
+  obtain ⟨evsS, h1, h2⟩ := demux_is_partition_of_plain_output (ads := ads) (mods := mods)
+    (pre := (front o).2 ++ simpleSteps o) (ws := names.zipIdx (front o).1.writers.length)
+    (u := (front o).1.writers.length + names.length) (w0 := (front o).1.writers.length) (reads := reads) (evsD := evsD)
+    (by rw [hWeq]; exact List.nodup_range' 1)
+    (fun s hs w hw hmem => by have := hb.below s hs w hw; have := hmemW w hmem; omega)
+    (fun s hs hmem => by have := hb.below s hs _ hmem; omega)
+    (by rw [hlen]; exact hrun)
+  refine ⟨(front o).2 ++ simpleSteps o, names.zipIdx (front o).1.writers.length, (front o).1.writers.length + names.length,
+    (front o).1.writers.length, evsS, ?_, rfl, h1, h2⟩
+  rw [hlen]
 end Cutadapt.C15
